@@ -61,6 +61,9 @@ def gen_cases(seed, tier):
         pairs.append(((cw(), cw(), cw()), (b0, cw(), cw())))
     for a, b in pairs:
         cases.append(['c3'] + [hx(x) for x in a + b])
+    # information only: raw words in [p, 2^64) as coefficients (legal for the CPU library, outside gl64_t's invariant)
+    for a, b in (((P, P + 1, 2**64 - 1), (3, 4, 5)), ((3, 4, 5), (2**64 - 1, P + 7, P)), ((2**64 - 1, 2**64 - 1, P + 1), (2**64 - 1, P, 2**64 - 2))):
+        cases.append(['c3'] + [hx(x) for x in a + b] + ['raw'])
     for i in range(6 if quick else 40):
         a = [rng.word() for _ in range(3)] if i else [P, P + 1, 2**64 - 1]
         s = [rng.next() & 0xFFFFFFFF for _ in range(3)] if i else [0x80000000, 0xFFFFFFFF, 0x7FFFFFFF]
@@ -184,9 +187,12 @@ def run_arch(ck, wd, arch, exe, cases, pc, tag, results):
         if j.get('e') == 'crash' and j.get('kind') == 'exit' and j.get('code') == 97:
             raise Infra('device code (case "%s") reached a gl64_t member outside the translated PTX subset' % j['case'].strip())
     env = {'PCONST': pc}
-    part = dict(known=[], heavy=[], light=[])
+    part = dict(known=[], heavy=[], light=[], info=[])
+    raw_ci = {i + 1 for i, c in enumerate(cases) if c[-1] == 'raw'}
     for j in recs:
-        if predicted_known(j):
+        if j.get('ci') in raw_ci:
+            part['info'].append(j)
+        elif predicted_known(j):
             part['known'].append(j)
         elif j.get('e') in HEAVY or (j.get('e') == 'lh' and j.get('check_perm', 0) > 0):
             part['heavy'].append(j)
@@ -217,7 +223,8 @@ def run_arch(ck, wd, arch, exe, cases, pc, tag, results):
         with ThreadPoolExecutor(max_workers=8) as ex:
             for js, vk in ex.map(classify, list(groups.items())):
                 for msg in vk['infra']:
-                    ck.note('infrastructure: ' + msg)
+                    if 'left unexamined' not in msg:        # one unexplained record sends the whole routine to the specification
+                        ck.note('infrastructure: ' + msg)
                 ck.states += vk['states']; ck.transitions += vk['transitions']
                 if vk['accepted'] == vk['total'] == len(js) and not vk['rejected']:
                     explained += js; n_acc += len(js)
@@ -227,8 +234,9 @@ def run_arch(ck, wd, arch, exe, cases, pc, tag, results):
                                                                     explained_and_rejected_by_spec=n_acc)
     tm['classifier_pass'] = round(time.time() - t0, 1); t0 = time.time()
     rejected = []
-    with ThreadPoolExecutor(max_workers=2) as ex:
+    with ThreadPoolExecutor(max_workers=3) as ex:
         futs = []
+        finfo = ex.submit(validate_trace, wd, MOD, CFG, dump('info', part['info']), env=env, nsplit=4, max_rejects=3) if part['info'] else None
         for name, mc in (('heavy', 2), ('light', 40)):
             if to_spec[name]:
                 futs.append((name, ex.submit(validate_trace, wd, MOD, CFG, dump(name, to_spec[name]), env=env, min_chunk=mc, max_rejects=3)))
@@ -239,6 +247,15 @@ def run_arch(ck, wd, arch, exe, cases, pc, tag, results):
                 ck.note('infrastructure: ' + msg)
             rejected += [rec for _, rec in v['rejected']]
             ck.sample_trace(os.path.join(wd, 'tr_%s_%d_%s.ndjson' % (tag, arch, name)), n=2)
+    if finfo:
+        vi = finfo.result()
+        ops = sorted({'%s' % rec.get('op') for _, rec in vi['rejected']})
+        ck.cov.setdefault('outside_the_invariant(information)', {})[str(arch)] = dict(records=vi['total'], rejected_at_least=len(vi['rejected']), ops_seen=ops)
+        if vi['rejected'] and arch == ARCHS[0]:
+            _, rec = vi['rejected'][0]
+            ck.note('information (outside the stated operand domain, not a verdict): with raw coefficient words in [p, 2^64) - legal '
+                    'for the CPU library, outside gl64_t\'s fully-reduced invariant - Goldilocks3GPU records differ from the field '
+                    'result (at least %d of %d looked at; operations seen: %s), e.g. %s' % (len(vi['rejected']), vi['total'], ', '.join(ops), describe(rec, False)))
     tm['specification_pass'] = round(time.time() - t0, 1); t0 = time.time()
     # ---- confirmation: exactly the case of a rejected record, alone in a fresh process (one witness per class of record)
     seen = {}
